@@ -12,7 +12,7 @@ R4 store contract   : for every `impl CredentialStore` in the workspace: wrapper
 """
 import re
 
-from . import core, flow, names
+from . import core, flow, names, normal
 from .framework import where, short, api_name
 from .common import AUTH, ceremony, find_aggs, upvar_names, is_upvar_field, forward_taint, place_reads, term_reads, place_has_field
 
@@ -52,6 +52,8 @@ def run(chk):
     p = core.load_program("all")
     chk.configs = ["all-features"]
     chk.explanation = __doc__
+    from . import summary
+    N = normal.Normalizer(p, summary.Summaries(p))
 
     ga = ceremony(p, "get_assertion")
     mc = ceremony(p, "make_credential")
@@ -133,26 +135,19 @@ def run(chk):
     ex = find_aggs(mc, "Ctap2Error", "CredentialExcluded")
     chk.require("R3 exclusion", "R3|site", len(ex) == 1, where(mc), "expected exactly one CredentialExcluded construction, found %d" % len(ex))
     for bb, idx, rv in ex:
-        conds = flow.conditions(p, mc, bb, T)
+        # necessary conditions of the site in normal form (combinator / match / if-let idioms all reduce to the same tests)
+        conds = normal.conditions(N, p, mc, bb, T) or []
         c_nonempty = c_ok = c_notempty = False
+        is_lookup = lambda x: isinstance(x, tuple) and x and x[0] == "await" and names.is_(x[1], "CredentialStore::find_credentials")
+        is_list = lambda x: x == ("field", ("upvar", 1), "exclude_list")
         for sb, labs, term in conds:
-            if term[0] == "call" and names.is_(term[1], "Option::is_some") and flow.lab_true(labs):
-                a = term[2][0]
-                if a[0] == "call" and names.is_(a[1], "Option::filter"):
-                    _, ret = closure_ret(p, a[2][1][1]) if a[2][1][0] == "closure" else (None, None)
-                    if flow.term_contains(a[2][0], lambda x: x == ("field", ("upvar", 1), "exclude_list")) and ret is not None and is_nonempty_pred(ret):
-                        c_nonempty = True
-            if term[0] == "discr" and labs == ("in", "0"):
-                a = term[1]
-                if a[0] == "call" and names.is_(a[1], "Result::map") and flow.term_contains(a, lambda x: isinstance(x, tuple) and x and x[0] == "await" and names.is_(x[1], "CredentialStore::find_credentials")):
-                    c_ok = True
-            if term[0] == "field" and term[2] == "0" and flow.lab_false(labs):
-                base = term[1]
-                if base[0] == "field" and base[2] == "as Ok" and base[1][0] == "call" and names.is_(base[1][1], "Result::map"):
-                    clo = base[1][2][1]
-                    _, ret = closure_ret(p, clo[1]) if clo[0] == "closure" else (None, None)
-                    if ret is not None and is_empty_pred(ret):
-                        c_notempty = True
+            e = flow.emptiness_test(term, labs)
+            if e is not None and e[1] is False and flow.is_payload_of(e[0], is_list):
+                c_nonempty = True
+            if flow.asserts_ok(term, labs, is_lookup):
+                c_ok = True
+            if e is not None and e[1] is False and flow.is_payload_of(e[0], is_lookup):
+                c_notempty = True
         site = where(mc, line=mc.blocks[bb]["stmts"][idx]["line"])
         cs = "; ".join(flow.cond_str(c) for c in conds[-4:])
         chk.ob("R3 exclusion", "R3|non-empty-list", c_nonempty, site, "necessary conditions of the CredentialExcluded return: " + cs)
